@@ -158,6 +158,16 @@ def extract(repo):
     if bb != "{constTypeDescriptor*td=this;while(td->ReferentType()){td=td->ReferentType();}returntd;}":
         raise ValueError("TypeDescriptor::BaseTypeDescriptor: loop not recognised")
 
+    # does the generated MakeRedefined() call name the entity that declares the redeclared attribute?
+    n3 = ce.count('MakeRedefined( a, \\"%s\\", \\"%s\\" )')
+    n2 = ce.count('MakeRedefined( a, \\"%s\\" )')
+    if n3 >= 1 and "ATTRdeclarer( sup, VARget_simple_name( a ) )" in ce:
+        redef_decl = "true"
+    elif n3 == 0 and n2 == 2:
+        redef_decl = "false"
+    else:
+        raise ValueError("the MakeRedefined( … ) call exp2cxx prints is not recognised")
+
     def codes(s):
         return "[" + ", ".join(str(ord(x)) for x in s) + "]"
     text = f"""/- generated by tools/extract.d/dictgen.py from src/clstepcore/STEPattributeList.cc, STEPattribute.cc,
@@ -188,6 +198,9 @@ def explicitRedeclMarksDerived : Bool := {explicit_marks}
 /-- ordered_attrs.cc `populateAttrList`: the search for the inherited attribute a redeclaration `SELF\\sup.x` means looks at the
     name only (false) or also requires the entry's creator to be `sup` or a supertype of `sup` (true) -/
 def redeclSearchUsesCreator : Bool := {search_creator}
+
+/-- exp2cxx prints `MakeRedefined( a, nm, declarer )` (true) or `MakeRedefined( a, nm )` (false: first attribute named nm) -/
+def redefinedSearchUsesDeclarer : Bool := {redef_decl}
 
 /-- `TypeDescriptor::NonRefTypeDescriptor`: maximal number of REFERENCE_TYPE links the loop follows (`none` = no bound) -/
 def nonRefLinkBound : Option Nat := {link_bound}
